@@ -495,6 +495,14 @@ func TestReplay(t *testing.T) {
 		if msg, _ := runFlags(c); msg != "" {
 			ev.Failf(t, "TestFlags", c, "%s", msg)
 		}
+	case "TestHostileNames":
+		var c NamesCase
+		if err := json.Unmarshal(r.Case, &c); err != nil {
+			t.Fatal(err)
+		}
+		if msg, _ := runNames(c); msg != "" {
+			ev.Failf(t, "TestHostileNames", c, "%s", msg)
+		}
 	case "TestExprNesting":
 		var c ExprCase
 		if err := json.Unmarshal(r.Case, &c); err != nil {
@@ -506,4 +514,103 @@ func TestReplay(t *testing.T) {
 	default:
 		t.Fatalf("unknown test %q in replay", r.Test)
 	}
+}
+
+// ---------------------------------------------------------------------
+// (e) hostile identifiers: top-level Go names that are reserved words of Coq
+// or of the GooseLang notations must not end up as definition names that
+// Coq cannot read (the declaration may be rejected instead).
+
+type NamesCase struct {
+	Func  string `json:"func"`
+	Type  string `json:"type"`
+	Const string `json:"const"`
+	Param string `json:"param"`
+	Field string `json:"field"`
+	Local string `json:"local"`
+}
+
+var hostileNames = []string{"as", "at", "by", "cofix", "end", "exists", "exists2", "fix", "forall", "fun", "IF", "in", "let", "match", "mod", "Prop", "Set", "then", "Type",
+	"using", "where", "with", "SProp", "λ", "rec", "val", "expr", "ty", "Definition", "Theorem", "Axiom", "Fixpoint", "CoFixpoint", "Hypothesis", "Parameter", "Variable",
+	"discriminated", "lazymatch", "multimatch", "End", "Section", "Qed", "Notation", "ok", "x"}
+
+var swKeywordNames = "c05NoCoqKeywordNames"
+
+func renderNames(c NamesCase) string {
+	return fmt.Sprintf("package main\n\ntype %s struct {\n\t%s uint64\n}\n\nconst %s uint64 = 3\n\nfunc %s(%s uint64) uint64 {\n\t%s := %s{%s: %s}\n\treturn %s.%s + %s\n}\n",
+		c.Type, c.Field, c.Const, c.Func, c.Param, c.Local, c.Type, c.Field, c.Param, c.Local, c.Field, c.Const)
+}
+
+func runNames(c NamesCase) (string, bool) {
+	src := renderNames(c)
+	tr, err := translate(src, goose.TranslationConfig{})
+	if err != nil {
+		return "", false
+	}
+	if tr.Panic != nil {
+		return fmt.Sprintf("goose panicked: %v", tr.Panic), true
+	}
+	rejected := len(tr.Errs)
+	f, err := vread.ParseFile(tr.Text)
+	if err != nil {
+		return fmt.Sprintf("emitted text is not well-formed: %v\n--- Go ---\n%s\n--- emitted ---\n%s", err, src, tr.Text), true
+	}
+	var got []string
+	for _, d := range f.Defs() {
+		got = append(got, d.Name)
+	}
+	if rejected == 0 {
+		want := []string{c.Type, c.Const, c.Func}
+		if strings.Join(got, " ") != strings.Join(want, " ") {
+			return fmt.Sprintf("definitions seen: %v, want %v\n%s", got, want, tr.Text), true
+		}
+	}
+	return "", true
+}
+
+func TestHostileNames(t *testing.T) {
+	ev.Pinned(t, "C05", "TestHostileNames", func(raw json.RawMessage) string {
+		var c NamesCase
+		if json.Unmarshal(raw, &c) != nil {
+			return ""
+		}
+		m, _ := runNames(c)
+		return m
+	})
+	rapid.Check(t, func(t *rapid.T) {
+		names := rapid.Permutation(hostileNames).Draw(t, "names")
+		c := NamesCase{Func: names[0], Type: names[1], Const: names[2], Param: names[3], Field: names[4], Local: names[5]}
+		if ev.SwitchOn(swKeywordNames) {
+			// only positions that become Gallina identifiers matter: keep reserved words out of them
+			k := 6
+			for _, p := range []*string{&c.Func, &c.Type, &c.Const} {
+				for isReservedName(*p) {
+					ev.Prune(swKeywordNames)
+					*p = names[k]
+					k++
+				}
+			}
+		}
+		ev.Eval()
+		msg, ok := runNames(c)
+		if !ok {
+			ev.Inconclusive("names: program does not type-check")
+			ev.Note("names program unusable: %+v", c)
+			return
+		}
+		ev.NonTrivial(fmt.Sprintf("names|%+v", c))
+		ev.Sample(map[string]any{"kind": "names", "case": c})
+		if msg != "" {
+			ev.Failf(t, "TestHostileNames", c, "%s", msg)
+		}
+	})
+}
+
+func isReservedName(n string) bool {
+	switch n {
+	case "Axiom", "CoFixpoint", "Definition", "Fixpoint", "Hypothesis", "IF", "Parameter", "Prop", "SProp", "Set", "Theorem", "Type", "Variable", "as", "at", "by", "cofix",
+		"discriminated", "end", "exists", "exists2", "fix", "forall", "fun", "in", "lazymatch", "let", "match", "mod", "multimatch", "then", "using", "where", "with", "λ", "rec":
+		return true
+	}
+	return false
 }
